@@ -301,6 +301,19 @@ def run(ctx):
                 "inflated by >1000 far-away points per side to force the temporally pre-binned path; call histories on one "
                 "Collocator and larger random clouds are validated by CollocTrace.tla. Non-trivial: scenarios with a pair "
                 "exactly at the distance class or at |dt| = I-1, a NaN point, or (first, first) as the only pair.")
+    # Design => Props for the two mechanisms between the spatial index and the result
+    d = ctx.tlc_dir("colloc")
+    write(os.path.join(d, "MCBin.cfg"), "CONSTANTS T = %d MaxP = %d Is = {1, 2} BFs = {1, 2%s} FullNear = %s\nSPECIFICATION Spec\n"
+          "INVARIANT Complete\nINVARIANT NoDuplicates\nINVARIANT NeverInvents\n" % ((4, 2, "", "FALSE") if quick else (6, 3, ", 3", "TRUE")))
+    ctx.tlc(d, "BinningDesign", "MCBin.cfg", workers=16, timeout=3000)
+    write(os.path.join(d, "MCIdxA.cfg"), "CONSTANTS Datasets = {1,2,3,4} MF = 10 MaxCalls = %d\nSize <- mcSize\nSameClass <- mcExact\n"
+          "SPECIFICATION Spec\nINVARIANT IndexFresh\nINVARIANT RowsRight\n" % (3 if quick else 4))
+    ctx.tlc(d, "MCIdx", "MCIdxA.cfg", workers=4, timeout=600)
+    write(os.path.join(d, "MCIdxB.cfg"), "CONSTANTS Datasets = {1,2,3,4} MF = 10 MaxCalls = 3\nSize <- mcSize\nSameClass <- mcAllclose\n"
+          "SPECIFICATION Spec\nINVARIANT IndexFresh\n")
+    ctx.tlc(d, "MCIdx", "MCIdxB.cfg", workers=4, must_hold=False, timeout=600)
+    ctx.notes["index_cache_design"] = ("with an exact comparison the cached tree always holds the points it is queried for; with an "
+                                       "np.allclose-like comparison TLC finds the stale-index history (expected counterexample)")
     cases = gen_cases(ctx, 5, 2, 0 if not quick else 14, ctx.seed, ks="{0,1,2}") if not quick else \
         gen_cases(ctx, 5, 2, 14, ctx.seed)
     cases += gen_cases(ctx, 5, 3, 8 if quick else 40, ctx.seed + 1)
